@@ -504,6 +504,20 @@ func NeighbourKeys(r *RNG, n int) [][]byte {
 		}
 	}
 	out = append(out, append(append([]byte(nil), base...), byte(r.Intn(256))))
+	// zero bytes behind the key: HMAC pads a key SHORTER than the hash block with zeros, so K and K||00 are the same
+	// key there - but from the block size on (64 bytes for SHA-1/SHA-256, 128 for SHA-512) they are different keys;
+	// anything that remembers a key in zero-padded, fixed-width or NUL-terminated form confuses exactly those
+	out = append(out, append(append([]byte(nil), base...), 0), append(append([]byte(nil), base...), 0, 0))
+	for _, w := range []int{64, 65, 128, 129} {
+		if n < w {
+			out = append(out, append(append([]byte(nil), base...), make([]byte, w-n)...))
+		}
+	}
+	if n > 1 {
+		v := append([]byte(nil), base...)
+		v[n-1] = 0
+		out = append(out, v, append([]byte(nil), v[:n-1]...))
+	}
 	return out
 }
 
